@@ -1,6 +1,7 @@
 #!/bin/sh
 # run quick checks for the given properties over several seeds; print anything that is not OK
 cd "$(dirname "$0")/.." || exit 2
+[ -n "$VP_RUN_REPO" ] && export VERIF_REPO="$VP_RUN_REPO"
 (cd lean && lake build >/dev/null 2>&1)
 props="$1"; seeds="$2"
 for s in $seeds; do for p in $props; do
